@@ -56,10 +56,11 @@ func runC13(c *Ctx) {
 			c.Incomplete("key-uniquely-decodable", construct, pos, "key construction not understood: "+strings.Join(errs, "; "))
 			return
 		}
-		ok, why := decodable(ts)
-		if ok {
+		whys := decodableAll(ts)
+		if len(whys) == 0 {
 			c.OK("key-uniquely-decodable", construct, pos, termsString(ts))
-		} else {
+		}
+		for _, why := range whys {
 			c.Bad("key-uniquely-decodable", construct, pos, "ambiguous:"+why, "key format "+termsString(ts)+" is not uniquely decodable: two different items can yield the same key ("+why+")")
 		}
 	}
